@@ -103,6 +103,73 @@ def events_split(ctx, start=0):
     return panic, bound, compact
 
 
+def has_defs(rules):
+    """does the reference semantics of the program contain a `!` (non-surjective) then-statement?"""
+    return any(concl[0] == "def" for _, paths in rules for _, concl, _ in S.stages(paths))
+
+
+def progress_snapshot(st):
+    """what the ranking function of C06 looks at: roots, allocated lengths, old tables, the empty-join flag"""
+    U = V.CTX.U
+    snap = {"len": {t: st.nelems(t) for t in st.s.types},
+            "roots": {(t, i): st.is_root(t, i) for t in st.s.types for i in range(U)},
+            "old": {}, "flag": lit(st.o.f["empty_join_is_dirty"])}
+    for rel in st.s.rels.values():
+        base = rel.full("old")
+        for row in M.rows_of(rel, U):
+            snap["old"][(rel.name, row)] = st.table(base.field).cell(base.project(row))
+    return snap
+
+
+def progress_goals(st, snap0, cont, label):
+    """C06 for `!`-free programs: no element is allocated, no class is created, and an iteration that goes round the
+    loop again strictly decreases the lexicographic measure (set of roots, set of tuples not yet old, empty-join flag)"""
+    c = V.CTX.c
+    snap1 = progress_snapshot(st)
+    goals = []
+    for t in st.s.types:
+        goals.append(("%s.noalloc: no element of %s is allocated" % (label, t), V.int_eq(snap1["len"][t], snap0["len"][t])))
+    sub = T
+    strict = F
+    for k, r0 in snap0["roots"].items():
+        r1 = snap1["roots"][k]
+        goals.append(("%s.noalloc: no new class %s" % (label, list(k)), c.implies(r1, r0)))
+        sub = c.and2(sub, c.implies(r1, r0))
+        strict = c.or2(strict, c.and2(r0, -r1))
+    if cont is None:
+        return goals
+    same_roots = c.and2(sub, -strict)
+    osub = T
+    ostrict = F
+    for k, o0 in snap0["old"].items():
+        o1 = snap1["old"][k]
+        osub = c.and2(osub, c.implies(o0, o1))
+        ostrict = c.or2(ostrict, c.and2(o1, -o0))
+    same_old = c.and2(osub, -ostrict)
+    dec = c.or_(strict, c.and_(same_roots, osub, ostrict), c.and_(same_roots, same_old, snap0["flag"], -snap1["flag"]))
+    goals.append(("%s.progress: an iteration that continues decreases (roots, tuples not yet old, empty-join flag)" % label, c.implies(cont, dec)))
+    return goals
+
+
+def no_pending_defs(delta):
+    c = V.CTX.c
+    return c.andl([lst.is_empty() for name, lst in delta.f.items() if name.endswith("_def")])
+
+
+def dirty_exact_goals(I, su, sch, m, st, label):
+    """is_dirty() <=> some new table holds a tuple, or an element is uprooted, or the empty-join flag is set"""
+    c = V.CTX.c
+    d = lit(I.deref(I.call_fn(su.prog.methods[(sch.model, "is_dirty")], T, [], self_val=m)))
+    want = lit(st.o.f["empty_join_is_dirty"])
+    for t in sch.types:
+        want = c.or2(want, -st.o.f[t + "_uprooted"].is_empty())
+    for rel in sch.rels.values():
+        base = rel.full("new")
+        for row in M.rows_of(rel, V.CTX.U):
+            want = c.or2(want, st.table(base.field).cell(base.project(row)))
+    return [("%s.dirty-exact: is_dirty() iff a new tuple, an uprooted element or the empty-join flag exists" % label, c.iff(d, want))]
+
+
 def lemma_step(su):
     """one iteration of the close_until loop from an arbitrary loop-head state"""
     ctx, I, sch = su.fresh()
@@ -113,6 +180,10 @@ def lemma_step(su):
     pre = inv_loop(st, d, su.rules)
     conds = []
     at_cond = []
+    surj = not has_defs(su.rules)
+    snap0 = progress_snapshot(st) if surj else None
+    dirty0 = dirty_exact_goals(I, su, sch, m, st, "step") if surj else []
+    nodefs0 = no_pending_defs(d)
 
     def cond(I_, g, args):
         b = ctx.fresh_bool("cond")
@@ -145,6 +216,11 @@ def lemma_step(su):
                   c.implies(ex, c.orl([c.and_(g, -b, same_observable(st, snap)) for g, b, snap in conds]))))
     goals += [("step.no-panic: " + msg, -g) for msg, g in panic]
     goals += [("step.compaction-bound: " + msg, -g) for msg, g in compact]
+    if surj:
+        # C06: in a program without `!` nothing is ever pending (part of the loop invariant of these programs only)
+        c06 = dirty0 + progress_goals(st, snap0, cont, "step")
+        c06.append(("step.noalloc: no definition is pending after an iteration", c.implies(cont, no_pending_defs(d))))
+        goals += [(lab, c.implies(nodefs0, l)) for lab, l in c06]
     cover = [("continue", cont), ("exit", ex), ("early", early)]
     return ctx, Goal("step", ctx.assumes + [M.conj(pre), -bound], goals, cover)
 
@@ -202,6 +278,8 @@ def lemma_prologue(su):
     st = M.State(sch, m)
     pre = inv_api(st, su.rules)
     at_cond = []
+    surj = not has_defs(su.rules)
+    snap0 = progress_snapshot(st) if surj else None
 
     def cond(I_, g, args):
         at_cond.append((g, M.inv_unionfind(st) + M.inv_struct(st, canon=True) + M.inv_no_uprooted(st)))
@@ -215,6 +293,8 @@ def lemma_prologue(su):
         goals += [("prologue.at-cond: " + lab, c.implies(g, l)) for lab, l in items]
     goals += [("prologue.no-panic: " + msg, -g) for msg, g in panic]
     goals += [("prologue.compaction-bound: " + msg, -g) for msg, g in compact]
+    if surj:
+        goals += progress_goals(st, snap0, None, "prologue")
     if len(at_cond) != 1:
         raise Unsupported("close_until prologue evaluates the condition %d times" % len(at_cond))
     cover = [("some element was uprooted", -M.conj(M.inv_no_uprooted(M.State(sch, m))) if False else T)]
